@@ -822,8 +822,14 @@ class nx_reg_load (of.ofp_action_vendor_base):
     if self.subtype != other.subtype: return False
     if self.offset != other.offset: return False
     if self.nbits != other.nbits: return False
-    if self.dst != other.dst: return False
-    if self.value != other.value: return False
+    # dst may be given as an nxm_entry instance that carries the value; on
+    # the wire (and after unpacking) it is the entry class plus an integer.
+    def canonical (a):
+      if isinstance(a.dst, nxm_entry):
+        raw = a.dst.pack(omittable=False)[4:]
+        return type(a.dst), int.from_bytes(raw, 'big')
+      return a.dst, a.value
+    if canonical(self) != canonical(other): return False
     return True
 
   def _pack_body (self):
